@@ -18,6 +18,7 @@ written in the orthonormal frame (n = grad(psi)/|grad(psi)|, b = B_pol/|B_pol|, 
 and "g_23 = g_33 d(zShift)/dy" are what is proved, for both signs of bpsign.
 """
 import types
+from contracts.meshkit import Opts as _Opts  # noqa: E402
 
 import numpy
 
@@ -375,7 +376,7 @@ def make_orchestration_run(have_rz, smoothing):
         names = ["a", "b", "c"]
         m = object.__new__(M.Mesh)
         m.regions = {i: Region(n, have_rz or n != "b") for i, n in enumerate(names)}
-        m.user_options = types.SimpleNamespace(curvature_smoothing=smoothing, shiftedmetric=True)
+        m.user_options = _Opts(curvature_smoothing=smoothing, shiftedmetric=True)
         m.calculateRZ = lambda: log.append(("calculateRZ", None))
         m.smoothnl = lambda v: log.append(("smoothnl", v))
         with patched((M, "print", lambda *a, **k: None)):
